@@ -6,6 +6,7 @@ import (
 	"fmt"
 	"runtime/debug"
 	"strings"
+	"time"
 
 	"github.com/ozanh/ugo"
 	"github.com/ozanh/ugo/parser"
@@ -111,15 +112,28 @@ func newC10session(kind string, mm *ugo.ModuleMap) *c10session {
 	return &c10session{ev: ugo.NewEval(c10opts(kind, mm), g), rec: rec, g: g}
 }
 
+// c10timeouts counts fragment evaluations of this worker that had to be cancelled
+var c10timeouts int
+
+// c10confirming: a one-sided timeout is being re-checked
+var c10confirming bool
+
 func (s *c10session) run(frag string) (r c10res, pan string) {
 	defer func() {
 		if p := recover(); p != nil {
 			pan = fmt.Sprint(p) + "|" + stackTopRepo(string(debug.Stack()))
 		}
 	}()
-	v, bc, err := s.ev.Run(context.Background(), []byte(frag))
+	// generated fragments terminate in milliseconds; the deadline only keeps a fragment whose code was damaged into an
+	// endless loop from stalling the whole batch (judged as its own outcome kind, see checkCutting)
+	ctx, cancel := context.WithTimeout(context.Background(), 10*time.Second)
+	defer cancel()
+	v, bc, err := s.ev.Run(ctx, []byte(frag))
 	r.LastIsExpr = lastIsExprStmt(frag)
-	if err != nil {
+	if err != nil && ctx.Err() != nil {
+		r.Kind = "timeout"
+		c10timeouts++
+	} else if err != nil {
 		r.Kind = "error"
 		r.Err = c10errString(err)
 		r.CompileErr = bc == nil
@@ -217,6 +231,10 @@ func analyseStmt(s parser.Stmt) *stmtInfo {
 }
 
 func (m c10) checkCutting(c *core.Ctx, stmts []string, infos []*stmtInfo, mask uint64, modules map[string]string, builtin []string, optKind string) (nontrivial bool) {
+	if c10timeouts >= 3 {
+		c.Count("skipped_after_timeouts")
+		return false
+	}
 	// build fragments
 	var frags []string
 	var fragIdx [][]int
@@ -247,6 +265,21 @@ func (m c10) checkCutting(c *core.Ctx, stmts []string, infos []*stmtInfo, mask u
 		}
 		if span != "" || fpan != "" {
 			c.Violation("C10|panic|"+core.NormMsg(span+fpan), "Eval.Run panics: "+span+fpan, wit("panic"))
+			return
+		}
+		if sr.Kind == "timeout" || fr2.Kind == "timeout" {
+			if sr.Kind != fr2.Kind && !c10confirming {
+				// confirm by evaluating the whole cutting once more before calling it non-termination
+				c10confirming = true
+				c10timeouts--
+				defer func() { c10confirming = false }()
+				return m.checkCutting(c, stmts, infos, mask, modules, builtin, optKind)
+			}
+			if sr.Kind != fr2.Kind {
+				c.Violation("C10|diff|nontermination|"+optKind+"|"+fmt.Sprintf("%x", hashStr(strings.Join(frags, "\x00"))), "fragment "+fmt.Sprint(i)+" does not terminate on one side only (cancelled after 10 s)", wit("does not terminate on one side only"))
+			} else {
+				c.Inconclusive("fragment cancelled after 10 s on both sides")
+			}
 			return
 		}
 		c.Count("fragments_compared")
